@@ -15,7 +15,13 @@ A case is {"ops": [[kind, ...], ...]}; values are JSON null / int / str:
   ["keys"] ["items"] ["values"] ["len"] ["pop", k] ["popitem"] ["setdefault", k, v] ["clear"]
   ["insert", index, k, v]
   ["push", v] ["pull"] ["gulp", v] ["spew"] ["setClock", i, t|null] ["attach", i|null]
-`form` in "list" (sequence of duples), "dict", "kw" (keyword arguments); stamps are in units of 1/8 s.
+`form` says how the pairs are handed to the call; one kind, or several joined by "+" (the pairs are split evenly
+into that many positional / keyword arguments, in that order):
+  sequences  "list" "tuple" "gen" (a generator)                  -- iterated as (k, v) duples
+  mappings   "dict" "odict" "share" (another Share holding them) "proxy" (types.MappingProxyType)
+             "userdict" (collections.UserDict) "duck" (an object with only get/items/keys)  -- .items()
+  "kw"       keyword arguments (only as the last part)
+A mapping collapses duplicate keys (last value, first position).  Stamps are in units of 1/8 s.
 """
 import collections
 import core
@@ -36,15 +42,83 @@ def is_public(k):
     return isinstance(k, str) and k.isidentifier() and not k.startswith("_") and k.isascii()
 
 
-def eff_pairs(op):
-    """the (key, value) sequence the call really iterates: a dict / keyword call collapses duplicates"""
+SEQ_FORMS = ("list", "tuple", "gen")
+MAP_FORMS = ("dict", "odict", "share", "proxy", "userdict", "duck")
+
+
+def split_forms(op):
+    """[(kind, pairs)] : the arguments of the call, in order"""
     ps = [tuple(p) for p in op[1]]
-    if op[2] == "list":
-        return ps
-    d = {}
-    for k, v in ps:
-        d[k] = v
-    return list(d.items())
+    kinds = op[2].split("+")
+    n = len(kinds)
+    out = []
+    for i, kind in enumerate(kinds):
+        seg = ps[i * len(ps) // n:(i + 1) * len(ps) // n]
+        if kind == "share" and not all(is_public(k) for k, _ in seg):
+            kind = "userdict"          # another Share can only hold public field names
+        if kind not in SEQ_FORMS:
+            d = {}
+            for k, v in seg:
+                d[k] = v
+            seg = list(d.items())
+        out.append((kind, seg))
+    return out
+
+
+def eff_pairs(op):
+    """the (key, value) sequence the call really iterates"""
+    return [p for _, seg in split_forms(op) for p in seg]
+
+
+class Duck:
+    """a mapping by duck typing only: get / items / keys"""
+    def __init__(self, pairs):
+        self._p = list(pairs)
+
+    def get(self, k, default=None):
+        for kk, v in self._p:
+            if kk == k:
+                return v
+        return default
+
+    def items(self):
+        return list(self._p)
+
+    def keys(self):
+        return [k for k, _ in self._p]
+
+
+def build_args(parts, storing):
+    """(positional arguments, keyword arguments) for split_forms(op)"""
+    import types, collections
+    from ioflo.aid.odicting import odict
+    pa, kwa = [], {}
+    for kind, seg in parts:
+        if kind == "list":
+            pa.append(list(seg))
+        elif kind == "tuple":
+            pa.append(tuple(seg))
+        elif kind == "gen":
+            pa.append((p for p in list(seg)))
+        elif kind == "dict":
+            pa.append(dict(seg))
+        elif kind == "odict":
+            pa.append(odict(seg))
+        elif kind == "share":
+            src = storing.Share(name="src")
+            src.change(list(seg))
+            pa.append(src)
+        elif kind == "proxy":
+            pa.append(types.MappingProxyType(dict(seg)))
+        elif kind == "userdict":
+            pa.append(collections.UserDict(dict(seg)))
+        elif kind == "duck":
+            pa.append(Duck(seg))
+        elif kind == "kw":
+            kwa.update(dict(seg))
+        else:
+            raise ValueError("unknown form " + kind)
+    return pa, kwa
 
 
 class CHECK(core.Check):
@@ -54,8 +128,10 @@ class CHECK(core.Check):
     N_QUICK = 600
     N_THOROUGH = 9000
     N_SEARCH = 800
-    RULE = ("histories of 1..60 operations on one Share: value/update/change/create (as duple list, dict or "
-            "keywords, with duplicate and existing keys), item set/get/del/contains/get, keys/items/values/len, "
+    RULE = ("histories of 1..60 operations on one Share: value/update/change/create (fields handed over as every "
+            "argument kind the code duck-types — list/tuple/generator of duples, dict, odict, another Share, "
+            "MappingProxyType, UserDict, an object with only get/items/keys, keywords — alone or mixed as several "
+            "positional plus keyword arguments, with duplicate and existing keys), item set/get/del/contains/get, keys/items/values/len, "
             "pop/popitem/setdefault/clear/insert (any index), deck push/pull/gulp/spew (with None), stamp changes of two stores "
             "(including None) and attach/detach; field names from a small pool of public names, plus (in ~25% of "
             "the cases) rejected names: leading underscore, digit first, '', spaces, punctuation, trailing newline, "
@@ -108,6 +184,15 @@ class CHECK(core.Check):
             return rng.randrange(-3, 50)
         return rng.choice(["", "s", "hello", "7"])
 
+    def _form(self, rng):
+        r = rng.random()
+        kinds = SEQ_FORMS + MAP_FORMS
+        if r < 0.55:
+            return rng.choice(kinds + ("kw", "list", "dict"))
+        if r < 0.80:
+            return rng.choice(kinds) + "+kw"
+        return "+".join([rng.choice(kinds) for _ in range(rng.choice([2, 3]))] + (["kw"] if rng.random() < 0.5 else []))
+
     def _pairs(self, rng, mode):
         n = rng.choice([0, 1, 1, 2, 2, 3, 5])
         return [[self._key(rng, mode), self._val(rng)] for _ in range(n)]
@@ -126,7 +211,7 @@ class CHECK(core.Check):
                 r = rng.random()
                 k = self._key(rng, mode)
                 v = self._val(rng)
-                form = rng.choice(["list", "list", "dict", "kw"])
+                form = self._form(rng)
                 if r < 0.07: ops.append(["setValue", v])
                 elif r < 0.10: ops.append(["getValue"])
                 elif r < 0.19: ops.append(["update", self._pairs(rng, mode), form])
@@ -219,14 +304,9 @@ class CHECK(core.Check):
                 elif k == "getValue":
                     r = "v:" + self._show_val(sh.value)
                 elif k in ("update", "change", "create"):
-                    ps = eff_pairs(op)
                     f = getattr(sh, k)
-                    if op[2] == "list":
-                        res = f(ps)
-                    elif op[2] == "dict":
-                        res = f(dict(ps))
-                    else:
-                        res = f(**dict(ps))
+                    pa, kwa = build_args(split_forms(op), storing)
+                    res = f(*pa, **kwa)
                     r = "unit" if res is sh else "?notself"
                 elif k == "stampNow":
                     r = "t:" + self._stamp(sh.stampNow())
